@@ -49,6 +49,7 @@ def _unrelated_calls(fx):
         Config(template=c)
         t = Fxp(None, False, 7, 3, config=c)
         Fxp(0.3 + 0.7j, template=t)
+        Fxp(0.25, template=Fxp(1 + 1j, True, 9, 3))
         Fxp(0.3, template=Fxp(None, True, 9, 11, scale=3, bias=-2, **odd))
         a = Fxp(5.3, like=t, **odd)
         b = Fxp(2.75, True, 8, 2, scale=2, bias=1)
